@@ -4,6 +4,7 @@ mod l1;
 mod l2;
 mod l3;
 mod l4;
+mod capi;
 
 /// runs one case line; its log ends up in this thread's output buffer.  A panic that escapes a case (e.g. a debug
 /// assertion inside a handler callback) ends that case only.
@@ -73,6 +74,17 @@ fn main() {
                 if r.is_err() { outln!("X c18-bad harness panic"); outln!("."); }
                 print!("{}", util::take_out());
             }
+        }
+        // C17: level-2 case lines through the extern "C" entry points
+        "capi" => {
+            for line in std::io::stdin().lock().lines() {
+                let line = line.unwrap();
+                if !line.starts_with("L2 ") { continue; }
+                let r = std::panic::catch_unwind(|| capi::run_case(&line));
+                if r.is_err() { outln!("X capi-bad a panic escaped the case (unwinding out of the C layer)"); outln!("."); }
+                print!("{}", util::take_out());
+            }
+            println!("X capi-last-error-per-thread {}", capi::last_error_is_per_thread());
         }
         "itemsize" => println!("{}", l2::stack_item_size()),
         _ => eprintln!("usage: harness cases|threads N|fresh < casefile | harness itemsize"),
